@@ -579,6 +579,15 @@ impl Hash for Mapping {
     }
 }
 
+#[cfg(reclass_rs_verif)]
+impl Mapping {
+    /// Verification hook: returns `(is_const, is_override)` for key `k`.
+    #[must_use]
+    pub fn verif_key_flags(&self, k: &Value) -> (bool, bool) {
+        (self.is_const(k), self.is_override(k))
+    }
+}
+
 #[cfg(test)]
 mod mapping_tests {
     use super::*;
